@@ -2,6 +2,8 @@ SPECIFICATION Spec
 CONSTANTS MaxBr = 3 MaxN = 3 CopyMode = "deep"
   BufSizes <- BufAll
   FillBr = 3
+  ExtraBr = 3
+  Shapes <- AllShapes
   FillTemplates <- FillFew
   Templates <- AllTemplates
 INVARIANT Emitted
